@@ -47,6 +47,10 @@ def post_case(draw, heavy=False):
     pass
   if heavy:
     case["heavy"] = draw(st.sampled_from([0, 0, 1, 497, 498, 499, 500]))
+    if draw(st.integers(0, 9)) == 0:
+      # a subclass that asks for a larger queue, and more events waiting than the shipped size
+      case["bigq"] = 600
+      case["heavy"] = draw(st.sampled_from([501, 540]))
   # live spy/trace output switched on (not with a pre-filled queue: hundreds of steps of output)
   case["live"] = draw(st.integers(0, 2)) == 0 and not case["heavy"]
   return case
@@ -70,6 +74,8 @@ def run_post_case(case, step_limit=400000):
 
   def body(s):
     A = aocheck.make_ao_class(rec)
+    if case.get("bigq"):
+      A = type("VfBigQueueAO", (A,), {"QUEUE_SIZE": case["bigq"]})
     chart = A(name="ao1")
 
     def on_dispatch(c, e):
